@@ -182,6 +182,26 @@ def cmp_constraints(cond, truth, subst=None, ren=None):
     return []
 
 
+def _tighten(l):
+    """integer tightening of  sum c_i x_i + k >= 0  (all atoms are integers): when the
+    coefficients are integers with gcd g > 1, k may be lowered to the next multiple of g"""
+    from math import gcd, floor
+    if not l.c:
+        return l
+    g = 0
+    for v in l.c.values():
+        if v.denominator != 1 if hasattr(v, "denominator") else False:
+            return l
+        g = gcd(g, abs(int(v)))
+    if g <= 1:
+        return l
+    k = l.k
+    kk = Fraction(floor(k / g) * g)
+    if kk == k:
+        return l
+    return Lin(l.c, kk)
+
+
 def feasible(cons):
     """Fourier-Motzkin: is the conjunction of  L >= 0  (and integer disequalities
     ("ne", L): L != 0, split into L >= 1 or L <= -1) satisfiable over the rationals?"""
@@ -193,7 +213,7 @@ def feasible(cons):
             others = []      # ignore further disequalities (weaker hypotheses: still sound)
         return feasible(rest + others + [ne - Lin(k=1)]) or \
             feasible(rest + others + [ne.scale(-1) - Lin(k=1)])
-    cons = [Lin(c.c, c.k) for c in cons]
+    cons = [_tighten(Lin(c.c, c.k)) for c in cons]
     atoms = set()
     for c in cons:
         atoms.update(c.c)
